@@ -256,8 +256,15 @@ def write_json(path: Path, obj) -> None:
     tmp.replace(path)
 
 
+def pub(case):
+    """The case without harness-private keys (those starting with an underscore)."""
+    if isinstance(case, dict):
+        return {k: v for k, v in case.items() if not str(k).startswith('_')}
+    return case
+
+
 def case_id(case) -> str:
-    return hashlib.sha1(json.dumps(case, sort_keys=True, default=str).encode()).hexdigest()[:12]
+    return hashlib.sha1(json.dumps(pub(case), sort_keys=True, default=str).encode()).hexdigest()[:12]
 
 
 class PropertyCheck:
